@@ -33,7 +33,7 @@ REACH = {"quick": {"op:tail": 300, "op:insert": 300, "op:sort": 400, "op:unique"
                    "tail:n=0": 25, "insert:at-or-past-end": 60, "insert:negative": 60, "sort:none-present": 150, "len:0": 200}}
 
 OPS = ["modify_dep", "modify_if2", "modify2", "fill_after_inplace_key", "filter_pred", "filter_kv", "filter_out_pred", "filter_out_kv", "sort", "unique", "select", "unselect", "rename", "modify", "modify_if",
-       "fill_missing_keys", "fill_missing_keys_all", "append", "extend", "insert", "add", "mul", "reverse", "head", "tail", "slice", "copy", "drop_na", "extend_self", "add_self", "rmul", "setitem"]
+       "fill_missing_keys", "fill_missing_keys_all", "append", "extend", "insert", "add", "mul", "reverse", "head", "tail", "slice", "copy", "drop_na", "extend_self", "add_self", "rmul", "setitem", "iadd", "imul", "setslice"]
 
 def gen_items(rng, n, start=0):
     items = []
@@ -72,6 +72,10 @@ def generate(rng, tier):
         elif op == "mul": arg = rng.choice([0, 1, 3, -1, 2])
         elif op == "rmul": arg = rng.choice([0, 1, 2, 3])
         elif op == "setitem": arg = (rng.choice(["0", "-1", "mid"]), {"_tag_": 5000 + rng.randint(0, 99), "a": rng.choice([1, 2, None]), "b": "x"})
+        elif op == "iadd": arg = (rng.choice(["list", "tuple", "gen", "lod", "self"]), gen_items(rng, rng.randint(0, 3), start=6000 + rng.randint(0, 50) * 10))
+        elif op == "imul": arg = rng.choice([0, 1, 2, 3])
+        elif op == "setslice": arg = (rng.choice([(None, 1, None), (1, None, None), (0, 0, None), (-1, None, None), (None, None, None), (1, 3, None)]),
+                                      rng.choice(["list", "gen", "lod"]), gen_items(rng, rng.randint(0, 3), start=7000 + rng.randint(0, 50) * 10))
         elif op in ("head", "tail"): arg = rng.choice(["0", "1", "len-1", "len", "len+2", "none", "2"])
         elif op == "slice": arg = rng.choice([(None, 2, None), (1, None, None), (None, None, 2), (None, None, -1), (-2, None, None), (1, -1, 1), (0, 0, None), (5, 1, -2)])
         elif op == "drop_na": arg = rng.choice([["a"], ["b", "c"], []])
@@ -166,6 +170,12 @@ def model(L, op, arg):
         out = list(L)
         out[{"0": 0, "-1": -1, "mid": n // 2}[arg[0]]] = arg[1]
         return out
+    if op == "iadd": return L + (L if arg[0] == "self" else list(arg[1]))
+    if op == "imul": return L * arg
+    if op == "setslice":
+        out = list(L)
+        out[slice(*arg[0])] = list(arg[2])
+        return out
     if op == "reverse": return L[::-1]
     if op in ("head", "tail"):
         k = {"0": 0, "1": 1, "len-1": max(0, n - 1), "len": n, "len+2": n + 2, "none": 3, "2": 2}[arg]
@@ -220,6 +230,19 @@ def apply(di, data, op, arg):
         # item assignment edits the list in place; the new item supports attribute access like the others
         data[{"0": 0, "-1": -1, "mid": n // 2}[arg[0]]] = dict(arg[1])
         return data
+    if op in ("iadd", "setslice"):
+        # the in-place spellings a list has: the receiver stays the same object and the new items become attribute dicts like the others
+        form, items = (arg[0], arg[1]) if op == "iadd" else (arg[1], arg[2])
+        items = [dict(x) for x in items]
+        val = {"list": items, "tuple": tuple(items), "gen": (x for x in items), "lod": di.ListOfDicts(items), "self": data}[form]
+        same = data
+        if op == "iadd": data += val
+        else: data[slice(*arg[0])] = val
+        if data is not same: raise AssertionError(f"{op} is in place for a list; the receiver was replaced")
+        return data
+    if op == "imul":
+        data *= arg
+        return data
     if op == "extend_self": return data.extend(data)
     if op == "add_self": return data + data
     if op == "reverse": return data.reverse()
@@ -273,10 +296,11 @@ def execute(case):
             res.skip(f"domain:{op}")
             continue
         name = {"filter_pred": "filter", "filter_kv": "filter", "filter_out_pred": "filter_out", "filter_out_kv": "filter_out",
-                "fill_missing_keys_all": "fill_missing_keys", "modify_if2": "modify_if", "modify2": "modify", "modify_dep": "modify", "fill_after_inplace_key": "fill_missing_keys", "extend_self": "extend", "add_self": "add"}.get(op, op)
+                "fill_missing_keys_all": "fill_missing_keys", "modify_if2": "modify_if", "modify2": "modify", "modify_dep": "modify", "fill_after_inplace_key": "fill_missing_keys", "extend_self": "extend", "add_self": "add", "iadd": "add", "imul": "mul"}.get(op, op)
         res.cls(f"op:{name}")
         n = len(L)
         feat = "plain"
+        if op in ("iadd", "imul"): res.cls(f"op:{op}"); feat = "in-place"
         if op == "tail" and arg == "0": res.cls("tail:n=0"); feat = "n=0"
         if op == "insert":
             if arg[0] in ("len", "len+3"): res.cls("insert:at-or-past-end"); feat = "at-or-past-end"
